@@ -351,3 +351,15 @@ def flaky(x='fx'):
   if FLAKY['fail']:
     raise RuntimeError('flaky factory failed')
   return vfx.rec('flaky', locals())
+
+
+class MakerBase:
+  """Classmethod inherited by a subclass (bound-method pyrefs)."""
+
+  @classmethod
+  def make(cls, x='dx', y='dy'):
+    return vfx.rec(cls.__name__ + '.make', locals())
+
+
+class MakerSub(MakerBase):
+  pass
